@@ -164,6 +164,9 @@ inductive NondetKind where
   /-- external program or C library called on file content (iconv, dpkg): a deterministic function of its input, a
       parameter of C17 / C20; code passed as `preexec_fn` runs in the forked child only -/
   | externalTool
+  /-- pool of worker PROCESSES (`ProcessPoolExecutor`): every worker has its own copy of the global state — modelled by
+      `CliState.parExec`; a pool of THREADS would share `sys.stdout` and every global and is kind `other` -/
+  | processPool
   /-- CPU count for `-j auto` (start-up; job count is irrelevant: `jobs_schedule_irrelevant`) -/
   | cpuCount
   /-- anything else (`random`, `id`, `hash`, `os.environ`, `os.getpid`, `time` on the per-file path …).  NOT benign. -/
